@@ -219,6 +219,22 @@ type Tunnel struct {
 
 // OpenTunnel performs CONNECT target, then a TLS handshake verifying against pool for serverName.
 func OpenTunnel(proxyAddr, target, serverName string, pool *x509.CertPool) (*Tunnel, error) {
+	pt, err := ConnectOnly(proxyAddr, target)
+	if err != nil {
+		return nil, err
+	}
+	return pt.Handshake(serverName, pool)
+}
+
+// PendingTunnel is a CONNECT that has been answered 200 but whose TLS handshake has not started yet.
+type PendingTunnel struct {
+	conn   net.Conn
+	Target string
+}
+
+// ConnectOnly sends CONNECT target and waits for the 200; the client's TLS handshake is left to Handshake, so
+// that other tunnels can be set up in between.
+func ConnectOnly(proxyAddr, target string) (*PendingTunnel, error) {
 	conn, err := net.DialTimeout("tcp", proxyAddr, 10*time.Second)
 	if err != nil {
 		return nil, fmt.Errorf("dial proxy: %w", err)
@@ -239,12 +255,20 @@ func OpenTunnel(proxyAddr, target, serverName string, pool *x509.CertPool) (*Tun
 		conn.Close()
 		return nil, errors.New("unexpected bytes after CONNECT response")
 	}
+	return &PendingTunnel{conn: conn, Target: target}, nil
+}
+
+func (p *PendingTunnel) Close() { p.conn.Close() }
+
+func (p *PendingTunnel) Handshake(serverName string, pool *x509.CertPool) (*Tunnel, error) {
+	conn := p.conn
+	conn.SetDeadline(time.Now().Add(30 * time.Second))
 	tc := tls.Client(conn, &tls.Config{RootCAs: pool, ServerName: serverName})
 	if err := tc.Handshake(); err != nil {
 		conn.Close()
 		return nil, fmt.Errorf("tls handshake: %w", err)
 	}
-	t := &Tunnel{raw: conn, tls: tc, br: bufio.NewReader(tc), Target: target}
+	t := &Tunnel{raw: conn, tls: tc, br: bufio.NewReader(tc), Target: p.Target}
 	if cs := tc.ConnectionState(); len(cs.PeerCertificates) > 0 {
 		t.Leaf = cs.PeerCertificates[0]
 	}
